@@ -10,3 +10,4 @@ import SmVerif.Model.DriverSketch
 import SmVerif.Model.DriverSeq
 import SmVerif.Model.DriverSelect
 import SmVerif.Model.DriverTax
+import SmVerif.Model.DriverJson
